@@ -250,9 +250,20 @@ def _translate_td_us(sub, tree, out):
     return ctxs
 
 
+def _undecorated(tree, qualnames):
+    """A decorator replaces the function by whatever it returns (a memo, a wrapper): the body alone is then not what runs.
+    The translation is of the body, so a decorated function fails closed."""
+    for q in qualnames:
+        fn = P.find_function(tree, q)
+        if fn.decorator_list:
+            raise P.Unsupported(f"{q} is decorated ({', '.join('@' + ast.unparse(d)[:60] for d in fn.decorator_list)}): "
+                                "the translated body is not the function that runs")
+
+
 def gen_duration_ops(ctx: P.Ctx):
     path = src("duration.py")
     tree = ast.parse(open(path).read())
+    _undecorated(tree, ["_divide_and_round", TD_US, "Duration._to_microseconds"] + ["Duration." + m for m in OPS])
     sub = P.Ctx()
     sub.consts = ctx.consts
     sub.attrs = {"_days": ("d_days", P.Z), "_seconds": ("d_seconds", P.Z), "_microseconds": ("d_micro", P.Z), "_years": ("d_years", P.Z),
